@@ -79,10 +79,3 @@ def whole(level, smax=40, timeout=1800, tier="thorough", mode="functional"):
                 unwindset={"ext_header_for_num.0": 12, "lha_crc16_buf.0": smax + 10, "decode_extended_headers.0": smax // 3 + 2, "read_l1_extended_headers.0": smax // 3 + 2},
                 units=HDR_UNITS + ["lha_file_header_read (complete, level %d)" % level], timeout=timeout, mem_gb=10, tier=tier, stubs=HDR_STUBS + ["calloc/free of the header block: typed slot"],
                 bounds="arbitrary input of 0..%d bytes with level byte %d, everything else symbolic; whole parser, no callee stubs except the block allocation" % (smax, level))
-
-
-def l01big(timeout=900, tier="both"):
-    d = l01(262, timeout=timeout, tier=tier)
-    d.update(name="l01.big", defines=["S_MAX=262", "BIGHDR", "STROBJ=264"], mem_gb=8, optional_witnesses=True,
-             bounds="level 0/1 base headers with a length byte of 252..255 (input up to 262 bytes): all interpreted fields, checksum, name length symbolic; name bytes beyond offset 30 fixed")
-    return d
